@@ -25,6 +25,12 @@ def snapshot():
         out.append(f"fn main() {{ {decl} for a in {it} {{ for b in {it} {{ print(a, b, \"|\"); }} }} println(); }}")
         out.append(f"fn main() {{ {decl} for a in {it} {{ for b in {it} {{ print(a, b, \"|\"); break; }} }} println(); }}")
         out.append(f"fn main() {{ {decl} let n = 0; for c in {it} {{ if n == 1 {{ continue; }}; n += 1; try {{ for d in {it} {{ throw(\"x\"); }} }} catch e {{ print(c, \"!\"); }}; }} println(n); }}")
+    # the iterable is the result of a call that hands back a value someone else still holds: snapshot and fresh cursor too
+    out.append("fn id(l: [int]) -> [int] { l } fn main() { let l = [1, 2, 3]; let n = 0; for x in id(l) { l.push(x * 10); n += 1; } println(n, l); }")
+    out.append("let g = [1, 2, 3, 4]; fn get() -> [int] { g } fn main() { for x in get() { println(x); if x == 2 { break; } } for x in get() { print(x); } println(); }")
+    out.append("fn idr(r: range) -> range { r } fn main() { let r = 0..2; for a in idr(r) { for b in idr(r) { print(a, b, \"|\"); } } println(); }")
+    out.append("fn ids(s: str) -> str { s } fn main() { let s = \"ab\"; for a in ids(s) { for b in ids(s) { print(a + b, \"\"); break; } } println(); for c in ids(s) { print(c); } println(); }")
+    out.append("fn main() { let o = new { l: [1, 2] }; for x in o.l { o.l.push(9); print(x); } println(o.l); let ll = [[1, 2]]; for x in ll[0] { ll[0].push(x); } println(ll); }")
     out.append("fn first(s: str) -> str { for c in s { return c; } \"\" } fn main() { let s = \"xyz\"; println(first(s)); println(first(s)); let n = 0; for c in s { n += 1; } println(n); }")
     out.append("fn upto(r: range) -> int { for i in r { if i == 1 { return i; } } 0 - 1 } fn main() { let r = 0..5; println(upto(r)); println(upto(r)); for i in r { print(i); } println(); }")
     out.append("fn main() { for i in 0..3 { for c in \"abc\" { println(c); break; } } for i in 0..2 { for j in 5..8 { if j == 6 { break; } print(i, j, \"|\"); } } println(); }")
@@ -306,7 +312,7 @@ def modelled_members_and_casts():
  'fn main() { let s = "Mixed Case 123 _-!"; println(s.to_upper(), s.to_lower(), s.to_upper().to_lower() == s.to_lower(), s.contains("Case"), s.contains(""), s.contains("case"), s.starts_with("Mixed"), s.starts_with(""), s.starts_with("mixed"), s.len()); }',
  'fn p(s: str) { try { println(s, "->", s.parse_int()); } catch e { println(s, "!", e.message); }; } fn main() { p("42"); p("-42"); p("+7"); p("007"); p(""); p("-"); p("+"); p("12a"); p("a12"); p(" 1"); p("1 "); p("1_000"); p("0x1F"); p("9223372036854775807"); p("9223372036854775808"); p("-9223372036854775808"); p("-9223372036854775809"); p("99999999999999999999"); p("99999999999999999999x"); p("18446744073709551616"); p("1.5"); p("1e3"); p("--1"); p("it is"); p("a/b"); }',
  'fn q(s: str) { try { println(s, "->", s.parse_bool()); } catch e { println(s, "!", e.message); }; } fn main() { q("true"); q("false"); q("True"); q("FALSE"); q("1"); q("0"); q("t"); q("F"); q(""); q("yes"); q("tRUE"); q(" true"); q("2"); }',
- 'fn p(s: str) { try { println(s, "->", s.parse_float()); } catch e { println(s, "!", e.message); }; } fn main() { p("1.5"); p("-2.25"); p("+0.125"); p("010"); p("3"); p("-0"); p("1000000"); p("65535.0009765625"); p("0.5"); p("abc"); p(""); p("x1"); p(" 1"); p("$5"); p("1024.0"); }',
+ 'fn p(s: str) { try { println(s, "->", s.parse_float()); } catch e { println(s, "!", e.message); }; } fn main() { p("1.5"); p("-2.25"); p("+0.125"); p("010"); p("3"); p("-0"); p("1000000"); p("65535.0009765625"); p("0.5"); p("abc"); p(""); p("x1"); p(" 1"); p("$5"); p("1024.0"); p(".5"); p("5."); p("."); p("+"); p("-."); p("1.5abc"); p("1.2.3"); p("12a"); p("1 "); p("1,5"); p("..5"); p("+-1"); }',
  'fn main() { let t = 0; for w in "10 20 x 30 -5".split(" ") { try { t += w.parse_int(); } catch e { println("skip", w, e.message); } } println(t); let fs = "0.5;1.25;2".split(";"); let sum = 0.0; for f in fs { sum += f.parse_float(); } println(sum, sum.is_int(), sum as int); }',
  # --- list sort / join / to_string / contains / concat
  'fn main() { let l = [3, -1, 2, 9223372036854775807, -9223372036854775807, 2, 0]; l.sort(); println(l); let s = ["b", "a", "B", "", "ab", "a"]; s.sort(); println(s, s.join("")); let f = [2.5, -1.0, 2.5, 0.0, -0.0, 1000000.0]; f.sort(); println(f); let e: [int] = []; e.sort(); println(e, e.join(","), [1].join(",")); }',
@@ -320,6 +326,13 @@ def modelled_members_and_casts():
  'fn main() { let o = new { ? }; let p = new { ? }; p.set("o", o); try { o.set("p", p); } catch e { println(e.message); } try { o.set("l", [?p]); } catch e { println(e.message); } try { o.set("me", o); } catch e { println(e.message, e.line, e.column); } o.set("ok", [p.keys()]); println(o, p); let t = new { inner: p }; try { o.set("t", t); } catch e { println("t", e.message); } println(o.keys()); }',
  'fn main() { let o = new { a: 1, b: 2 }; let k = "a"; let a: int = o[k]; let b: int = o["b"]; println(a, b); let d = new { ? }; d.set("x", 5); let x: int = d["x"]; println(x); k = "zz"; let z: int = d[k]; println(z); }',
  'fn main() { let o = new { a: 1, b: 2 }; let k = "c"; println(o.keys()); let c: int = o[k]; println(c); }',
+ # --- JSON: to_json / to_json_indent (sorted keys, whole floats with .0, escapes), parse_json of valid documents
+ 'fn main() { let nn: ?int = none; let o = new { s: "a\\"b<>&é", n: 1, f: 1.5, z: -0.0, big: 1000000.0, b: true, no: nn, so: ?[1, 2], e: [1], l: [new { k: "v" }], em: new { ? } }; println(o.to_json()); println(o.to_json_indent()); let e: [int] = []; println(e.to_json(), e.to_json_indent(), [[e]].to_json_indent()); }',
+ 'fn main() { let d = new { ? }; d.set("b", 1); d.set("a", [1.5, 2.0]); d.set("c d", new { x: ?"y" }); println(d.to_json()); println(d.to_json_indent()); let s = "tab\\there\\\\back"; println([s, "\\n", "</script>"].to_json()); let r = [s].to_json().parse_json() as [str]; println(r[0] == s, r); }',
+ 'fn p(s: str) { try { let v: { ? } = s.parse_json(); println(v); } catch e { println(e.message); }; } fn main() { p("{\\"a\\": 1, \\"b\\": [1, 2.5, \\"x\\", true, false, null], \\"c\\": {\\"d\\": {}}, \\"a\\": 2}"); p(" { } "); p("[1]"); p("{\\"u\\": \\"\\\\u00e9\\\\n\\\\/\\", \\"n\\": -0, \\"m\\": 2.0, \\"k\\": -12.25}"); }',
+ 'fn main() { let l: [int] = "[1, 2, 3]".parse_json(); println(l, l.len()); let f: [float] = "[1.5, 2.25]".parse_json(); println(f); try { let g: [float] = "[1.5, 2]".parse_json(); println(g); } catch e { println(e.message); } let o = "{\\"a\\": {\\"b\\": [null, 1]}}".parse_json() as { a: { b: [?int] } }; println(o.a.b, o.to_json()); let c = "{\\"keys\\": 3, \\"name\\": \\"door\\"}".parse_json() as { keys: int, name: str }; println(c.name, c.keys + 1, c.to_json()); }',
+ # --- compare_lev
+ 'fn main() { println("kitten".compare_lev("sitting"), "".compare_lev("abc"), "abc".compare_lev(""), "héllo".compare_lev("hello"), "same".compare_lev("same"), "flaw".compare_lev("lawn"), "a".compare_lev("bcdef"), "sunday".compare_lev("saturday")); }',
  # --- conversions inside larger programs
  'fn avg(l: [int]) -> float { let s = 0; for x in l { s += x; } (s as float) / (l.len() as float) } fn main() { println(avg([1, 2, 3, 4]), avg([10]), avg([1, 2]) ** 2.0, (avg([7, 8]) * 2.0) as int, avg([1, 2]).round(), avg([-1, -2]).round(), avg([-1, -2]).trunc()); }',
  'fn parse(line: str) -> { ? } { let o = new { ? }; for kv in line.split(";") { let p = kv.split("="); if p.len() == 2 { o.set(p[0].to_lower(), p[1]); }; } o } fn main() { let o = parse("A=1;b=two;C=3.5;bad;=e"); println(o.keys(), o); let a: str = o.get("a").unwrap(); println(a.parse_int() + 1); let c: str = o.get("c").unwrap(); println(c.parse_float() * 2.0); try { let n: int = o.get("b").unwrap(); println(n); } catch e { println(e.message); } }',
